@@ -711,7 +711,7 @@ def build_tasks(ctx):
 
     # (2) model-independent depth-first enumeration on the implementation with a preemption bound
     b = 3 if big else 2
-    cap_runs = 60000 if big else 4000
+    cap_runs = 60000 if big else 2500
 
     def bnd(S, N):
         return b if (S == 1 or N <= 1) else (b - 1 if N == 2 else max(1, b - 2))
